@@ -31,9 +31,21 @@ var poolSiblings = &hist.Pool{
 	Patterns: []string{"/b", "/c", "/d", "/a", "/*{w}"},
 }
 
+// poolMethods: several custom methods (the method-root slice grows, shrinks and shifts; Truncate of
+// one custom method next to another).
+var poolMethods = &hist.Pool{
+	Methods:  []string{"GET", "FOO", "BAR"},
+	Patterns: []string{"/a", "/a/b"},
+}
+
 var pool = poolPrefix
 
 func usePool(name string) {
+	if name == "methods" {
+		pool = poolMethods
+		probes = []probe{{"GET", "/a"}, {"GET", "/a/b"}, {"FOO", "/a"}, {"BAR", "/a"}, {"BAR", "/a/b"}, {"PUT", "/a"}}
+		return
+	}
 	if name == "siblings" {
 		pool = poolSiblings
 		probes = []probe{{"GET", "/a"}, {"GET", "/b"}, {"GET", "/c"}, {"GET", "/d"}, {"GET", "/z/y"}, {"FOO", "/a"}}
@@ -67,6 +79,16 @@ func (b bop) String() string {
 
 func bodyAlphabet() []bop {
 	var out []bop
+	if pool == poolMethods {
+		for _, m := range pool.Methods {
+			for _, k := range []int{hist.Handle, hist.Update, hist.Delete} {
+				out = append(out, bop{Kind: k, Method: m, Pattern: "/a"})
+			}
+			out = append(out, bop{Kind: hist.Truncate, Method: m})
+		}
+		out = append(out, bop{Kind: hist.Handle, Method: "BAR", Pattern: "/a/b"}, bop{Kind: hist.Truncate, Method: "FOO,BAR"}, bop{Kind: hist.Truncate}, bop{Kind: opSnap}, bop{Kind: opIter})
+		return out
+	}
 	for _, p := range pool.Patterns {
 		for _, k := range []int{hist.Handle, hist.Update, hist.Delete} {
 			out = append(out, bop{Kind: k, Method: "GET", Pattern: p})
@@ -281,7 +303,7 @@ func evalCase(cs Case, expCache map[string]string) (class, msg string) {
 				if b.Method == "" {
 					err = txn.Truncate()
 				} else {
-					err = txn.Truncate(b.Method)
+					err = txn.Truncate(strings.Split(b.Method, ",")...)
 				}
 				if err != nil {
 					bodyErr = fmt.Sprintf("Truncate returned %v", err)
@@ -519,6 +541,19 @@ func settledBehaviour(txn *fox.Txn) string {
 
 func seeds() [][]hist.Key {
 	var out [][]hist.Key
+	if pool == poolMethods {
+		all := []hist.Key{{Method: "GET", Pattern: "/a"}, {Method: "FOO", Pattern: "/a"}, {Method: "BAR", Pattern: "/a"}, {Method: "BAR", Pattern: "/a/b"}}
+		for mask := 0; mask < 1<<len(all); mask++ {
+			var sd []hist.Key
+			for i := range all {
+				if mask&(1<<i) != 0 {
+					sd = append(sd, all[i])
+				}
+			}
+			out = append(out, sd)
+		}
+		return out
+	}
 	gp := pool.Patterns
 	n := len(gp)
 	for mask := 0; mask < 1<<n; mask++ {
@@ -683,6 +718,7 @@ func init() {
 				defer un()
 				runSeq(c, r, "prefixes")
 				runSeq(c, r, "siblings")
+				runSeq(c, r, "methods")
 			}, Replay: func(c *mc.Ctx, raw json.RawMessage) string {
 				un := mc.DeterministicPools()
 				defer un()
